@@ -64,8 +64,9 @@ func wrapGraphNodeError(nodeKey string, err error) error {
 	if ok := isInterruptError(err); ok {
 		return err
 	}
-	var ie *internalError
-	ok := errors.As(err, &ie)
+	// only the error itself is extended in place: an *internalError further down the chain (the node wrapped the error
+	// of a nested run with its own error) must not replace what the node returned
+	ie, ok := err.(*internalError)
 	if !ok {
 		return &internalError{
 			typ:       internalErrorTypeNodeRun,
@@ -89,8 +90,7 @@ func wrapStreamWrapperError(streamWrapperType defaultImplAction, err error) erro
 	if ok := isInterruptError(err); ok {
 		return err
 	}
-	var ie *internalError
-	ok := errors.As(err, &ie)
+	ie, ok := err.(*internalError)
 	if !ok {
 		return &internalError{
 			typ:               internalErrorTypeNodeRun,
